@@ -513,3 +513,26 @@ Proof.
   rewrite Q; try congruence.
   unfold accepted. rewrite E3, E4. reflexivity.
 Qed.
+
+(* the crisp form: open, no socket error, nobody writing, no drainer alive, every call so far returned nil:
+   the wire is the concatenation, in lock order, of the calls' whole frame sequences *)
+Lemma concat_ok_calls (l : list (list nat * list nat * result)) :
+  Forall call_ok l -> Forall (fun c => snd c = ROk) l ->
+  concat (map (fun c => snd (fst c)) l) = concat (map (fun c => fst (fst c)) l).
+Proof.
+  induction l as [|[[fs acc] r] l IH]; intros Hk Hr; cbn; auto.
+  inversion Hk as [|? ? Hc Hk']; subst. inversion Hr as [|? ? Hr1 Hr']; subst.
+  cbn in Hr1. subst r. destruct Hc as (_ & E & _). rewrite (E eq_refl). f_equal. auto.
+Qed.
+
+Theorem whole_messages m maxq acts :
+  let s := run m maxq acts in
+  closed s = false -> failed s = false -> dr s = None -> holder s = None ->
+  Forall (fun c => snd c = ROk) (calls s) ->
+  wire s = concat (map (fun c => fst (fst c)) (calls s)).
+Proof.
+  intros s Hc Hf Hd Hh Hr.
+  pose proof (quiescent_wire m maxq acts Hc Hf Hd) as Q. fold s in Q. rewrite Q.
+  unfold accepted. rewrite Hh. cbn. rewrite app_nil_r.
+  apply concat_ok_calls; auto. apply calls_ok.
+Qed.
